@@ -93,6 +93,12 @@ def concLine (st : ConcRun) (lineNo : Nat) (line : String) : Except String (Conc
       -- the records of the calls that returned a value or changed something must be there
       let outs :=
         (if ok then [] else [s!"PROPFAIL C14 linearizable {tag} seed={get "seed"} calls={get "calls"} final={get "final"}"]) ++
+        -- C09, independent of the schedule: a conditional get that names a non-zero version V never
+        -- receives version V (when V is active the answer is not-modified; when it is not, V is not served)
+        (if calls.any (fun c => match c.op, c.res with
+              | .getCond _ v, .value _ k => v != 0 && k == v
+              | _, _ => false)
+         then [s!"PROPFAIL C09 cond_never_returns_held_version {tag} calls={get "calls"}"] else []) ++
         (if final.isNone then [s!"PROPFAIL C14 final_state_readable {tag} final={get "final"}"] else []) ++
         (if auditOK then [] else [s!"PROPFAIL C06 concurrent_records_whole {tag} audit={get "audit"}", s!"PROPFAIL C14 concurrent_records_whole {tag} audit={get "audit"}"])
       let nthreads := (calls.map (·.thread)).foldl max 0 + 1
